@@ -62,7 +62,7 @@ theorem partLoop_plen (w ef ep : Nat) :
       · simp [hbrk] at hb; subst hb; simp; omega
       · simp only [hbrk, ite_false] at hb
         rw [partLoop_acc w ef ep fuel (np + 1) _ _ _ _ (by omega)] at hb
-        simp only [List.nil_append, List.mem_append, List.mem_singleton, List.mem_cons, List.not_mem_nil, or_false] at hb
+        simp only [List.nil_append, List.mem_append, List.mem_cons, List.not_mem_nil, or_false] at hb
         rcases hb with (hb | hb) | hb
         · subst hb; simp; omega
         · have := ih (np + 1) _ _ (by omega) (by omega) b (Or.inl hb); omega
@@ -72,7 +72,7 @@ theorem partLoop_plen (w ef ep : Nat) :
       · simp [hbrk] at hb; subst hb; simp; omega
       · simp only [hbrk, ite_false] at hb
         rw [partLoop_acc w ef ep fuel (np + 1) _ _ _ _ (by omega)] at hb
-        simp only [List.nil_append, List.mem_append, List.mem_singleton, List.mem_cons, List.not_mem_nil, or_false] at hb
+        simp only [List.nil_append, List.mem_append, List.mem_cons, List.not_mem_nil, or_false] at hb
         rcases hb with hb | hb | hb
         · have := ih (np + 1) _ _ (by omega) (by omega) b (Or.inl hb); omega
         · subst hb; simp; omega
